@@ -38,8 +38,9 @@ PROPS = {
     "C04": {
         "test": "TestC04", "binary": "sched", "level": "exploration",
         "rule": "rapid-generated deterministic programs with failing / crashing / disabled / deploy-failing steps at every position; "
-                "oracle: the set of plugin executions logged before shutdown is a subset of the reference's may-run set. "
-                "non-trivial = >=1 step that must not run",
+                "in a third of the cases the stop-before-start motif (S waits for X and stops if Y; Z needs Y; X can finish only after Z started). "
+                "oracle: the set of plugin executions logged before shutdown is a subset of the reference's may-run set; in the motif S never "
+                "executes. non-trivial = >=1 step that must not run",
         "quick": {"cases": 1200, "shards": 12, "shrinktime": "30s"},
         "thorough": {"cases": 20000, "shards": 16, "shrinktime": "120s", "timeout_s": 3000},
         "assumptions": RUN_ASSUME + ["events after the run began shutting down are not judged"],
